@@ -55,6 +55,9 @@ type NetP struct {
 	HostSet string // host-side tag, e.g. "host-set v2"
 	Core    *Core  // plugin side only
 
+	// FailAfter > 0: Server() takes this long and then fails (a plugin whose implementation cannot be built)
+	FailAfter time.Duration
+
 	// OnServer / OnClient let in-process workloads grab the brokers.
 	OnServer func(*plugin.MuxBroker)
 	OnClient func(*plugin.MuxBroker)
@@ -72,6 +75,10 @@ func (s *RPCSrv) Do(req string, resp *string) error {
 }
 
 func (p *NetP) Server(b *plugin.MuxBroker) (interface{}, error) {
+	if p.FailAfter > 0 {
+		time.Sleep(p.FailAfter)
+		return nil, errors.New("vp: this plugin's implementation cannot be built")
+	}
 	if p.Core == nil {
 		return nil, errors.New("vp: no core on this side")
 	}
